@@ -22,7 +22,7 @@ Oracles
 from amaranth import *
 from ..harness import Harness
 from ..engine import Query
-from ..lib.host import SlottedHost, TxSpy, KIND_NONE, KIND_SETUP, KIND_IN, KIND_OUT, KIND_SOF, KIND_HSK
+from ..lib.host import SlottedHost, TxSpy, slot_cubes, KIND_NONE, KIND_SETUP, KIND_IN, KIND_OUT, KIND_SOF, KIND_HSK
 
 PROP = "C07"
 ENCODED = ["luna/gateware/usb/usb2/control.py: USBControlEndpoint (stage FSM, _handle_setup_reset)",
@@ -34,10 +34,12 @@ ENCODED = ["luna/gateware/usb/usb2/control.py: USBControlEndpoint (stage FSM, _h
 ASSUMPTIONS = [
     "full speed over UTMI (USBDevice with a plain UTMI bus: 12 MHz timing constants), tx_ready = 1, VBUS present, line idle (J), connect = 1",
     "slotted host: one transaction per 32-cycle slot with fixed packet timing; the host ACKs a device data packet at a fixed "
-    "offset and only if the device sent one; OUT payloads 0..2 bytes; no lone handshakes",
+    "offset and only if the device sent one; OUT data packets are zero-length (DATA0 or DATA1); no lone handshakes",
     "self-composition only: the prefix before the fresh SETUP contains no SET_ADDRESS / SET_CONFIGURATION request "
     "(these legitimately change device state)",
     "descriptor collection: one device descriptor (18 bytes) + one configuration/interface (18 bytes); EP0 max packet size 8",
+    "the host never sends a SETUP token to a non-control endpoint and no SET_ADDRESS request (device stays at address 0; C08)",
+    "the per-slot (kind, CRC-corruption / host-ACK flag) choices are enumerated as separate solver queries (cubes)",
 ]
 BOUNDS = "BMC from reset over N = 3 (quick) / 4 (thorough) symbolic transactions (K = 32 N + 2 cycles): all sequences of " \
          "SETUP / IN / OUT / SOF / idle slots, all 64 SETUP bits, endpoints 0..3, all 7-bit addresses"
@@ -94,8 +96,9 @@ class CtrlHarness(Harness):
         if compose:
             cov += ["fresh_after_abandoned", "fresh_data"]
         self.c = {n: self.cover(n) for n in cov}
-        self.a = {n: self.assume(n) for n in ["legal", "no_hsk", "no_set_address", "fresh_setup",
+        self.a = {n: self.assume(n) for n in ["legal", "no_hsk", "no_set_address", "no_setup_other_ep", "fresh_setup",
                                               "prefix_no_state_change"]}
+        self.kf_malformed = self.kf("malformed_standard_request")
 
     def elaborate(self, platform):
         m = Module()
@@ -106,11 +109,13 @@ class CtrlHarness(Harness):
         hA.add_in_ack(m, "usb", spyA.is_data & ~uA.tx_valid)
         tie_device(m, uA, dA, hA)
         n = self.nslots
-        nohsk, noaddr = Const(1), Const(1)
+        nohsk, noaddr, nosetup_ep = Const(1), Const(1), Const(1)
         for i in range(n):
             nohsk = nohsk & (hA.kind[i] != KIND_HSK)
             noaddr = noaddr & ~((hA.kind[i] == KIND_SETUP) & (hA.data[i][5:7] == 0) & (hA.data[i][8:16] == 5))
-        m.d.comb += [self.a["legal"].eq(hA.legal), self.a["no_hsk"].eq(nohsk), self.a["no_set_address"].eq(noaddr)]
+            nosetup_ep = nosetup_ep & ~((hA.kind[i] == KIND_SETUP) & (hA.ep[i] != 0))
+        m.d.comb += [self.a["legal"].eq(hA.legal), self.a["no_hsk"].eq(nohsk), self.a["no_set_address"].eq(noaddr),
+                     self.a["no_setup_other_ep"].eq(nosetup_ep)]
 
         # ---- ghost: control-transfer stage derived from the script alone
         sd = hA.cur_data
@@ -132,6 +137,17 @@ class CtrlHarness(Harness):
                 m.d.usb += g_out_seen.eq(1)
             with m.Elif((hA.cur_kind == KIND_IN) & to_us & ep0):
                 m.d.usb += g_in_seen.eq(1)
+        # recorded finding: the standard-request handlers do not validate direction / wLength.  A GET_STATUS / GET_DESCRIPTOR /
+        # GET_CONFIGURATION request whose status stage is an IN transaction (direction OUT, or wLength = 0) gets a bare ACK
+        # handshake on that IN token; a SET_ADDRESS / SET_CONFIGURATION / CLEAR_FEATURE request sent with direction IN and
+        # wLength > 0 gets its status "ZLP" as a data packet in reply to the status-stage OUT transaction.
+        g_getreq_status_in = Signal()
+        with m.If(hA.slot_end & ~hA.done & valid_setup):
+            is_get = (sd[8:16] == 0) | (sd[8:16] == 6) | (sd[8:16] == 8)
+            is_set = (sd[8:16] == 1) | (sd[8:16] == 5) | (sd[8:16] == 9)
+            m.d.usb += g_getreq_status_in.eq((sd[5:7] == 0) & (
+                (is_get & (~sd[7] | (sd[48:64] == 0))) | (is_set & (sd[7] | (sd[48:64] != 0)))))
+        m.d.comb += self.kf_malformed.eq(g_getreq_status_in)
         # ---- per-slot judgement of what device A transmitted (evaluated in the last cycle of the slot)
         judge = hA.slot_end & ~hA.done
         sent = spyA.count != 0
@@ -285,33 +301,57 @@ GET_STATUS = 0x0002000000000080        # 80 00 00 00 00 00 02 00
 
 def queries(tier):
     qs = []
-    n = 3 if tier == "quick" else 4
-    K = 32 * n + 2
-    f1 = lambda n=n: CtrlHarness(n, compose=False)
+    f3 = lambda: CtrlHarness(3, compose=False)
+    f4 = lambda: CtrlHarness(4, compose=False)
     fc = lambda: CtrlHarness(3, compose=True)
     hints = {
-        "fresh_after_abandoned_data": {"s0_kind": KIND_SETUP, "s0_data": GET_DESC_DEV, "s1_kind": KIND_IN, "s1_flag": 1,
-                                       "s2_kind": KIND_SETUP, "s2_data": SET_CONFIG_1, "s3_kind": KIND_IN},
-        "fresh_after_abandoned_status": {"s0_kind": KIND_SETUP, "s0_data": SET_CONFIG_1, "s1_kind": KIND_SETUP,
-                                         "s1_data": GET_DESC_DEV, "s2_kind": KIND_IN},
         "data_in": {"s0_kind": KIND_SETUP, "s0_data": GET_DESC_DEV, "s1_kind": KIND_IN},
         "status_zlp": {"s0_kind": KIND_SETUP, "s0_data": SET_CONFIG_1, "s1_kind": KIND_IN},
         "status_ack": {"s0_kind": KIND_SETUP, "s0_data": GET_STATUS, "s1_kind": KIND_IN, "s2_kind": KIND_OUT},
         "stall": {"s0_kind": KIND_SETUP, "s1_kind": KIND_IN},
         "setup_ack": {"s0_kind": KIND_SETUP},
+        "fresh_after_abandoned_data": {"s0_kind": KIND_SETUP, "s0_data": GET_DESC_DEV, "s1_kind": KIND_IN, "s1_flag": 1,
+                                       "s2_kind": KIND_SETUP, "s2_data": SET_CONFIG_1, "s3_kind": KIND_IN},
+        "fresh_after_abandoned_status": {"s0_kind": KIND_SETUP, "s0_data": SET_CONFIG_1, "s1_kind": KIND_SETUP,
+                                         "s1_data": GET_DESC_DEV, "s2_kind": KIND_IN},
         "fresh_after_abandoned": {"s0_kind": KIND_SETUP, "s0_data": GET_STATUS, "s1_kind": KIND_SETUP,
                                   "s1_data": GET_DESC_DEV, "s2_kind": KIND_IN, "j": 1},
         "fresh_data": {"s0_kind": KIND_NONE, "s1_kind": KIND_SETUP, "s1_data": GET_DESC_DEV, "s2_kind": KIND_IN, "j": 1},
     }
-    cov1 = ["data_in", "status_zlp", "status_ack", "stall", "setup_ack", "fresh_after_abandoned_status"]
-    if n >= 4:
-        cov1.append("fresh_after_abandoned_data")
-    qs.append(Query(f"bmc_{n}slots", f1, K, timeout=2400, hints=hints, covers=cov1,
-                    desc=f"{n} symbolic transactions: direction rules and fresh-transfer answers (explicit oracle)"))
+    hints["stall"]["s0_data"] = 0x00000000000001C0          # a vendor request nobody claims
+    hints["setup_ack"]["s0_data"] = GET_STATUS
+    for hd in hints.values():            # witnesses use uncorrupted packets to endpoint 0 of address 0; unused slots idle
+        for i in range(4):
+            hd.setdefault(f"s{i}_kind", KIND_NONE)
+            hd.setdefault(f"s{i}_olen", 0)
+            hd.setdefault(f"s{i}_flag", 1 if hd.get(f"s{i}_kind") == KIND_IN else 0)
+            hd.setdefault(f"s{i}_addr", 0)
+            hd.setdefault(f"s{i}_ep", 0)
+    # reachability twins (guided witnesses; kinds are pinned by the hints)
+    qs.append(Query("covers_3slots", f3, 32 * 3 + 2, asserts=[], hints=hints, timeout=900, split=False,
+                    covers=["data_in", "status_zlp", "status_ack", "stall", "setup_ack", "fresh_after_abandoned_status"],
+                    desc="witnesses for the interesting events (3 transactions)"))
+    # the assertions, one solver process per cube of per-slot (kind, flag) choices; everything else symbolic
+    zl3 = {f"s{i}_olen": 0 for i in range(3)}      # OUT data packets are zero-length (status stage) in this check
+    zl4 = {f"s{i}_olen": 0 for i in range(4)}
+    if tier == "quick":
+        cubes = list(slot_cubes(3, "SIiP", first="S", extra=zl3)) + \
+            [c for c in slot_cubes(3, "SI", first="IPN", extra=zl3) if c[0][1] == "S"]
+    else:
+        cubes = list(slot_cubes(3, "SsIiPQoNF", extra=zl3))
+    for name, layer in cubes:
+        qs.append(Query(f"bmc_3slots_{name}", f3, 32 * 3 + 2, layer=layer, covers=[], timeout=900, split=False,
+                        desc=f"3 transactions {name}: direction rules and fresh-transfer answers; address, endpoint, data symbolic"))
     if tier == "thorough":
-        qs.append(Query("bmc_selfcomposition_3slots", fc, 32 * 3 + 2, timeout=3000, hints=hints, required=False,
-                        asserts=["fresh"], covers=["fresh_after_abandoned", "fresh_data"],
-                        desc="best effort: device A (whole script) vs fresh device B (only the last transfer, only endpoint 0)"))
-    qs.append(Query("cosim", lambda: CtrlHarness(3, compose=False), 0, kind="cosim",
-                    cosim_cycles=100 if tier == "quick" else 400))
+        qs.append(Query("covers_4slots", f4, 32 * 4 + 2, asserts=[], hints=hints, timeout=900, split=False,
+                        covers=["fresh_after_abandoned_data"], desc="witness: fresh transfer after an abandoned data stage"))
+        for name, layer in slot_cubes(4, "SIiP", first="S", extra=zl4):
+            qs.append(Query(f"bmc_4slots_{name}", f4, 32 * 4 + 2, layer=layer, covers=[], timeout=900, split=False,
+                            desc=f"4 transactions {name}"))
+        for name, layer in slot_cubes(3, "SIiP", first="S", extra=zl3):
+            layer = dict(layer)
+            qs.append(Query(f"bmc_selfcomposition_{name}", fc, 32 * 3 + 2, layer=layer, timeout=1200, required=False,
+                            asserts=["fresh"], covers=[], split=False,
+                            desc="best effort: device A (whole script) vs fresh device B (last transfer only, endpoint 0 only)"))
+    qs.append(Query("cosim", f3, 0, kind="cosim", cosim_cycles=100 if tier == "quick" else 400))
     return qs
